@@ -160,6 +160,37 @@ def nontrivial(m):
     return len(ns) >= 3 and ne >= 2 and (len(sources) >= 2 or any(len(p) >= 2 for p in par.values()))
 
 
+# ------------------------------------------------------------------ findings (corpus/C17)
+def load_corpus():
+    d = os.path.join(core.ROOT, "corpus", "C17")
+    out = []
+    for f in sorted(os.listdir(d)) if os.path.isdir(d) else []:
+        if f.endswith(".json"):
+            out.append(json.load(open(os.path.join(d, f))))
+    return out
+
+
+def replay_corpus(ctx, corpus, obs):
+    """Each witness is replayed on the implementation; the KNOWN-FINDING line is printed only if it still fails."""
+    still = {}
+    for wit, o in zip(corpus, obs):
+        fid = wit["id"]
+        fails = False
+        if o[0] == 0:
+            if fid == "C17-bfs-parallel-edge":
+                fails = len(set(o[6][0])) != len(o[6][0])
+            elif fid == "C17-bfs-from-node":
+                fails = any(set(pn[5][0]) - set(pn[6][0]) for pn in o[11])
+            elif fid == "C17-zero-weight-note":
+                par = {c for _, cs in wit["case"]["map"] for c in cs}
+                fails = o[9][0] == 0 and bool(o[9][1]) and o[9][1][0] in par
+        still[fid] = fails
+        if fails and not fid.endswith("-note"):
+            ctx.known(fid, wit["what"])
+    ctx.cov.setdefault("input_distribution", {})
+    ctx.corpus_status = still
+
+
 # ------------------------------------------------------------------ the check
 def gen_cases(ctx):
     rng = ctx.rng
@@ -267,12 +298,15 @@ def run(ctx):
         except (OSError, ValueError):
             pass
     payload = {"cases": [c for _, c in cases]}
+    corpus = load_corpus()
+    payload["cases"] += [w["case"] for w in corpus]
     # the wrappers: positive weights, acyclic, simple graphs only (Task/Job objects)
     wr = [c for k, c in cases if k in ("exh3", "exh4", "samp5", "samp6", "rand", "shuf4")]
     wr = wr[:: max(1, len(wr) // (150 if ctx.tier == "quick" else 1500))]
     payload["wrappers"] = wr
     impl = core.run_impl("graph.py", payload, timeout=1500)
-    obs = impl["obs"]
+    obs = impl["obs"][:len(cases)]
+    replay_corpus(ctx, corpus, impl["obs"][len(cases):])
 
     ctx.rules.append(
         "S-graph: every labelled DAG on <= %d nodes (exhaustive, ascending dict order) + seeded samples of the next size in "
@@ -293,7 +327,7 @@ def run(ctx):
         if nontrivial(c["map"]):
             nt += 1
     ctx.cov["distinct_nontrivial"] += nt
-    ctx.cov["input_distribution"] = {"cases_by_kind": kinds,
+    ctx.cov["input_distribution"] = {"corpus_witness_still_fails": getattr(ctx, "corpus_status", {}), "cases_by_kind": kinds,
                                      "cyclic_reported": sum(1 for o in obs if o[0] == 0 and o[5][0] == 1)}
     ctx.sample({"stream": "S-graph", "case": cases[len(cases) // 2][1]["map"], "impl_topological_sort": obs[len(cases) // 2][5]})
 
